@@ -12,6 +12,7 @@ import (
 	"strconv"
 	"strings"
 	"sync"
+	"time"
 
 	"github.com/golang/geo/s1"
 	"github.com/golang/geo/s2"
@@ -789,7 +790,26 @@ func c14FreeRunningRace(c *core.Ctx) {
 	var so, se strings.Builder
 	cmd.Stdout = &so
 	cmd.Stderr = &se
-	err := cmd.Run()
+	// The pass runs on real goroutines with the real sync package: a deadlock of the library hangs
+	// it for ever.  Deadlocks are decided by the controlled scheduler, not here, so the pass gets a
+	// generous horizon and a run that exceeds it is reported as cut short, never waited for.
+	horizon := time.Duration(core.Pick(c, 600, 1800)) * time.Second
+	var err error
+	if e := cmd.Start(); e != nil {
+		err = e
+	} else {
+		done := make(chan error, 1)
+		go func() { done <- cmd.Wait() }()
+		select {
+		case err = <-done:
+		case <-time.After(horizon):
+			cmd.Process.Kill()
+			<-done
+			c.CapHit(fmt.Sprintf("free-running -race pass did not finish within %v (killed); hooked and instrumented state is decided by the controlled scheduler", horizon))
+			c.Note("free_running_race_pass", "killed after its horizon")
+			return
+		}
+	}
 	if !strings.Contains(so.String(), "C14RACE-DONE") {
 		// the pass did not finish: a panic or fatal error of golang/geo under real concurrency is a
 		// violation in its own right; anything else is a harness problem
